@@ -49,6 +49,22 @@ Theorem c16_edits_leave_inputs : forall h cl, in_place cl = false ->
   forall a, a < length h -> get (apply_edits (fst (run Repaired cl h)) es) a = get h a.
 Proof. exact edits_leave_old. Qed.
 
+(* ---- upper bound for EVERY mode, in particular for the model of the current tree (mode Current): whatever is reachable
+        from a result is a new object or was reachable from the arguments of that call.  No other pre-existing object
+        (module-level state, an unrelated circuit, an earlier result) can be reached from a result, so the known sharing
+        classes are confined to the argument graph of the call. *)
+Theorem c16_confined : forall m h cl, in_place cl = false ->
+  forall a, reachable (fst (run m cl h)) (snd (run m cl h)) a -> length h <= a \/ reachable h (args_of cl) a.
+Proof. exact result_confined. Qed.
+
+(* ... hence an OLD object common to the results of two calls (any modes) is reachable from the arguments of both *)
+Theorem c16_results_share_only_arguments : forall m m' h cl cl', in_place cl = false -> in_place cl' = false ->
+  let h1 := fst (run m cl h) in
+  forall a, a < length h ->
+    reachable h1 (snd (run m cl h)) a -> reachable (fst (run m' cl' h1)) (snd (run m' cl' h1)) a ->
+    reachable h (args_of cl) a /\ reachable h1 (args_of cl') a.
+Proof. exact results_share_only_arguments. Qed.
+
 (* ---- later calls: after arbitrary edits of a result, a later call on the same arguments finds exactly the same
         argument object graph (same reachable set, same field values), for every well-formed heap.
    PARTIAL with respect to "the outcome of later calls is unchanged": the missing part is that `run` depends only on
@@ -125,6 +141,14 @@ Example c16_ex_F11 :
   observe Current f11_heap f11_call = (false, [0; 1; 0; 0; 0; 0; 0], [0; 1; 0; 0; 0; 0; 0]).
 Proof. split; vm_compute; reflexivity. Qed.
 
+(* non-vacuity of c16_confined on the model of the current tree: the F6 result reaches old objects (the basis, its
+   slot lists, the placeholder inside them) and every one of them is reachable from the argument circuit *)
+Example c16_ex_confined :
+  filter (fun a => a <? length f6_heap) (reach (fst (run Current f6_call f6_heap)) (snd (run Current f6_call f6_heap))) <> [] /\
+  forallb (fun a => mem a (reach f6_heap (args_of f6_call)))
+          (filter (fun a => a <? length f6_heap) (reach (fst (run Current f6_call f6_heap)) (snd (run Current f6_call f6_heap)))) = true.
+Proof. split; [vm_compute; discriminate|vm_compute; reflexivity]. Qed.
+
 (* in place: the circuit argument is returned and modified, nothing else *)
 Example c16_ex_inplace :
   observe Current f6_heap (CDqi true 13 [0] [2]) = (true, [1; 0; 0; 0; 0; 0; 0], [0; 0; 0; 0; 0; 0; 0]) /\
@@ -137,6 +161,8 @@ Print Assumptions c16_fresh.
 Print Assumptions c16_fresh_between_results.
 Print Assumptions c16_edits_leave_inputs.
 Print Assumptions c16_later_calls_partial.
+Print Assumptions c16_confined.
+Print Assumptions c16_results_share_only_arguments.
 Print Assumptions c16_reach_sound.
 Print Assumptions c16_reach_complete.
 Print Assumptions c16_refuted_F6.
